@@ -572,6 +572,18 @@ pub fn extra_definitions() -> Vec<Ty> {
         out.push(Ty::Struct(vec![ts.clone(), Ty::Struct(vec![e.clone(), u.clone()])]));
         out.push(Ty::Seq(Box::new(Ty::Struct(vec![e.clone(), ts.clone()]))));
     }
+    // a repetition whose items begin with a string, followed by something that begins with a word (a tag with a value, an enum, a
+    // tagged struct): in non-strict mode the library accepts a word in place of a string, and the items of a repetition are optional
+    {
+        let s4 = Ty::Str(4);
+        let t = |tag: &str, item: Option<Ty>| Tagged { tag: tag.into(), item, block: false, repeat: false };
+        out.push(Ty::TaggedStruct(vec![t("A1", Some(Ty::Seq(Box::new(s4.clone())))), t("B1", Some(u.clone()))]));
+        out.push(Ty::TaggedStruct(vec![t("A1", Some(Ty::Seq(Box::new(Ty::Struct(vec![s4.clone(), u.clone()]))))), t("B1", Some(u.clone()))]));
+        out.push(Ty::TaggedStruct(vec![t("A1", Some(Ty::Seq(Box::new(Ty::Array(Box::new(s4.clone()), 2))))), t("B1", Some(e.clone()))]));
+        out.push(Ty::Struct(vec![Ty::TaggedStruct(vec![t("A1", Some(Ty::Seq(Box::new(s4.clone()))))]), e.clone()]));
+        out.push(Ty::TaggedStruct(vec![t("A1", Some(Ty::Seq(Box::new(s4.clone())))), Tagged { tag: "B1".into(), item: Some(u.clone()), block: true, repeat: true }]));
+        out.push(Ty::Struct(vec![Ty::TaggedUnion(vec![t("A1", Some(Ty::Seq(Box::new(s4.clone()))))]), e.clone(), u.clone()]));
+    }
     for x in elems {
         out.push(Ty::Struct(vec![x.clone()]));
         out.push(Ty::Struct(vec![u.clone(), x.clone(), u.clone()]));
